@@ -99,7 +99,16 @@ func registerJSON() {
 		}
 		fz := c.E.freeze(c.S, iv.V, iv.T)
 		// the text is an uninterpreted function of nothing we know: a fresh string tied to the box
-		t := FreshVar("json", SStr)
+		// A-JSON-SORT: the encoding is a function of the content (map keys are sorted by encoding/json),
+		// so equal content gets the same text term
+		memo := "jsonenc:" + iv.T.String() + ":" + showValue(fz)
+		var t *Term
+		if g, ok := c.S.W.Ghost[memo]; ok {
+			t = g.(*Term)
+		} else {
+			t = FreshVar("json", SStr)
+			c.S.W.Ghost[memo] = t
+		}
 		blob := &Blob{Typ: iv.T, Val: fz, JSON: true}
 		// the text stays tied to its content when it travels as a string (record fields)
 		c.S.W.Ghost[fmt.Sprintf("jsonbox:%d", t.ID)] = &OpaqueV{Kind: "jsonbox", Data: blob}
